@@ -13,7 +13,6 @@ use std::panic::Location;
 /// `UrwRandomScheduler` keys its estimates on.
 pub struct Universe {
     pub tasks: Vec<Task>,
-    pub parents: Vec<Option<usize>>,
 }
 
 impl Universe {
@@ -58,14 +57,7 @@ impl Universe {
             }
             tasks
         });
-        Universe {
-            tasks,
-            parents: parents.to_vec(),
-        }
-    }
-
-    pub fn len(&self) -> usize {
-        self.tasks.len()
+        Universe { tasks }
     }
 
     /// Build the `&[&Task]` slice for the given ids into `buf` (reused to avoid allocation).
